@@ -118,6 +118,8 @@ def observe(c):
     if in_log_domain and "Kronecker" in opsfam.kinds_in(t) and not factorwise_ok(t):
         in_log_domain = False
         at["in_log_domain"] = False
+    Dc = Dn.astype(np.complex128)
+    at["normal"] = bool(np.allclose(Dc @ Dc.conj().T, Dc.conj().T @ Dc, rtol=0, atol=1e-9))
     with warnings.catch_warnings():
         warnings.simplefilter("ignore")
         with np.errstate(all="ignore"):
